@@ -133,6 +133,9 @@ OKDEF = r'''
 From SVP Require Import Model.Arc.
 Definition N := NumB.
 Definition T := NumTB.
+(* the variants of the implementation under test, detected by the harness *)
+Definition FX : bool := __FX__.     (* radical rule: false = np.isclose snap, true = repaired *)
+Definition DFX : bool := __DFX__.    (* derivative n%4==0 branch: false = no factor k, true = repaired *)
 Definition bz (z : Z) : bf := lit N z.
 Definition e9 : bf := div N (bz 1) (bz 1000000000).
 Definition cabs1 (z : bf * bf) : bf := add N (babs (fst z)) (babs (snd z)).
@@ -172,13 +175,13 @@ Definition casety : Type :=
 Definition ok (c : casety) : nat :=
   let '(start, radius, rot, large, sweep, end_, obs, samples, cub, quad) := c in
   let '(o_radius, o_center, o_theta, o_delta) := obs in
-  let P := arc_init N T start radius rot large sweep end_ in
+  let P := arc_init_v N T FX start radius rot large sweep end_ in
   let radicand := arc_radicand_of N T start radius rot end_ in
   (* the isclose(radicand, 0) decision is within rounding of its threshold: undecided *)
-  if bf_leb (babs (sub N radicand (atol8 N))) (mul N (atol8 N) (bf_of 1 (-13))) then 90 else
-  let radical := arc_radical N T radicand in
-  let u1 := arc_u1_of N T start radius rot large sweep end_ in
-  let u2 := arc_u2_of N T start radius rot large sweep end_ in
+  if negb FX && bf_leb (babs (sub N radicand (atol8 N))) (mul N (atol8 N) (bf_of 1 (-13))) then 90 else
+  let radical := arc_radical_of N T FX start radius rot end_ in
+  let u1 := arc_u1_of N T FX start radius rot large sweep end_ in
+  let u2 := arc_u2_of N T FX start radius rot large sweep end_ in
   (* the sign test on u1.imag is within rounding while |u1| < 1 (only possible when the
      snap fired on a positive radicand: theta = +-acos(u1.real) is then discontinuous) *)
   if bf_leb (babs (snd u1)) (bf_of 1 (-40)) &&
@@ -193,8 +196,14 @@ Definition ok (c : casety) : nat :=
   let rsum := cabs1 (a_radius P) in
   let S := add N (add N (cabs1 start) (cabs1 end_)) (add N rsum (cabs1 (a_center P))) in
   let tol := mul N e9 S in
-  let cth := cond (snd u1) in
-  let cde := if snapped then zero N else cond (arc_det N u1 u2) in
+  (* forward error of the implementation's radical = sqrt(radicand): the radicand carries an
+     absolute rounding error ~2^-49, so the radical ~2^-50/radical (capped at its square root) *)
+  let kc := if snapped then zero N else bmin (div N (bf_of 1 (-48)) radical) (bf_of 1 (-24)) in
+  let rS := a_radius P in let z := arc_zp1_of N T start rot end_ in
+  let wabs := add N (babs (div N (mul N (fst rS) (snd z)) (snd rS)))
+                    (babs (div N (mul N (snd rS) (fst z)) (fst rS))) in
+  let cth := add N (cond (snd u1)) kc in
+  let cde := if snapped then zero N else add N (cond (arc_det N u1 u2)) (add N kc kc) in
   let tol_th := add N (mul N e9 (bz 360)) (mul N (bz 58) cth) in
   let tol_de := add N (mul N e9 (bz 360)) (mul N (bz 58) cde) in
   let k1 := add N (bz 1) (babs (div N (mul N delta_m (pi_ T)) (bz 180))) in
@@ -204,12 +213,12 @@ Definition ok (c : casety) : nat :=
             (add N e9 (add N cth (mul N (add N (bz 1) (babs t)) cde))) in
   first_fail
    [ (bcclose (mul N e9 rsum) o_radius (a_radius P), 1);
-     (bcclose tol o_center (a_center P), 2);
+     (bcclose (add N tol (mul N wabs kc)) o_center (a_center P), 2);
      (ang_close tol_th o_theta (a_theta P), 3);
      (bclose tol_de o_delta delta_m, 4);
      (forallb (fun s => let '(t, o_pt, _) := s in bcclose (tol_pt t) o_pt (arc_point N T Pm t)) samples, 5);
      (forallb (fun s => let '(t, _, o_der) := s in
-         all2 (fun n o => bcclose (tol_d t n) o (oget (arc_deriv N T Pm t (Z.of_nat n))))
+         all2 (fun n o => bcclose (tol_d t n) o (oget (arc_deriv N T DFX Pm t (Z.of_nat n))))
               [1; 2; 3; 4; 5] o_der) samples, 6);
      (all2 (fun o m => all2 (bcclose (add N (tol_pt (bz 1)) (tol_pt (bz 1)))) o (c4list m))
            cub (arc_as_cubic_curves N T Pm 2), 7);
@@ -231,6 +240,23 @@ OBS_NAMES = {1: 'stored radius', 2: 'center', 3: 'theta', 4: 'delta', 5: 'point(
              8: 'as_quad_curves(2) control points', 90: 'undecided (isclose threshold within rounding)',
              9: 'on-ellipse residual of the observed points w.r.t. the observed centre/radii',
              91: 'undecided (sign of u1.imag within rounding inside the snapped region)'}
+
+
+def detect_variants():
+    """which variant of the two repaired places does the implementation run?
+    Behavioural probes; the answers select the model flags (FX, DFX), the variant agreement
+    lemmas of GenAgree/ArcVariant.v and the classification of end-point errors."""
+    from svgpathtools import Arc
+    v = complex(Arc(1 + 0j, 1 + 1j, 0, 0, 1, -1 + 0j).derivative(0.5, 4))
+    if abs(v - 1j) <= 1e-9:
+        dfx = False
+    elif abs(v - 1j * math.pi ** 4) <= 1e-6:
+        dfx = True
+    else:
+        dfx = None
+    a = Arc(0j, complex(1.000000004, 1), 0, True, False, complex(2, 2e-6))   # radicand = 8e-9
+    fx = not (abs(a.delta) == 180)
+    return fx, dfx
 
 
 def observe(arc_in, ts):
@@ -305,7 +331,7 @@ def fd_weights(x0, xs, m):
     return [c[i][m] for i in range(n)]
 
 
-def holds_impl(arc_in, a, o, ts):
+def holds_impl(arc_in, a, o, ts, fx=False):
     """the property statement on the implementation; returns list of (key, what, detail)"""
     bad = []
     s, r, rot, la, sw, e, _ = arc_in
@@ -319,11 +345,15 @@ def holds_impl(arc_in, a, o, ts):
     if not err <= 1e-9 * scale:
         # classify: snapped region / acos conditioning at an axis extreme / other
         u1x = float((ex['x1']) / ex['rx'])
-        if 0 < radicand <= 1e-13:
+        if fx:
+            snapped_region = False
+        else:
+            snapped_region = True
+        if snapped_region and 0 < radicand <= 1e-13:
             key = 'snap-endpoint-error-tiny-radicand'
             why = ('radicand = %.3g > 0 (rounding level) is snapped to 0 while start/end sit at an axis extreme of '
                    'the ellipse, where the centre moves like sqrt(radicand)' % radicand)
-        elif 1e-13 < radicand <= 1.0000001e-8:
+        elif snapped_region and 1e-13 < radicand <= 1.0000001e-8:
             key = 'snap-endpoint-error'
             why = ('0 < radicand = %.3g <= 1e-8 is snapped to 0 by np.isclose: the centre is put at the chord '
                    'midpoint, point(0)/point(1) miss start/end' % radicand)
@@ -367,7 +397,7 @@ def holds_impl(arc_in, a, o, ts):
                     {'delta': d}))
     if abs(abs(d) - 180) > 1e-6 and (abs(d) > 180) != bool(la):
         bad.append(('large-flag', '|delta| = %r versus large_arc=%r' % (abs(d), la), {'delta': d}))
-    if radicand > 1.001e-8 and abs(d) == 180 and rc < 1 - 1e-7:
+    if radicand > (1e-12 if fx else 1.001e-8) and abs(d) == 180 and rc < 1 - 1e-7:
         bad.append(('large-flag', 'half ellipse although radicand = %.3g > 1e-8' % radicand, {'delta': d}))
     # --- derivative(t, n) against finite differences of point (9-point stencil)
     h = 2.0 ** -5
@@ -412,6 +442,31 @@ def run(rep, tier, seed, replay=None):
     rng = common.mkrng(seed, 'C04')
     with common.Scratch() as tmp:
         info = common.std_static(rep, 'C04', GEN_GROUPS, AGREE, tmp)
+        fx, dfx = detect_variants()
+        rep.cov['implementation_variants'] = {
+            'radical_rule': 'repaired (0 iff scaled or radicand <= 0)' if fx else 'pinned (np.isclose snap)',
+            'derivative_mod4_eq0': {False: 'pinned (no chain factor)', True: 'repaired (factor k)',
+                                    None: 'NEITHER modelled variant'}[dfx]}
+        if dfx is None:
+            rep.violation('Arc.derivative(t, 4) is neither the pinned nor the repaired variant of the model',
+                          {'kind': 'variant', 'probe': 'Arc(1,1+1j,0,0,1,-1).derivative(0.5,4)'},
+                          found_input=False, key='deriv-variant-unknown')
+            dfx = False
+        # derivative at n = 4, 8 against the detected variant (GenAgree/ArcVariant.v)
+        other = 'pinned' if dfx else 'fixed'
+        skipv = set(info['untranslated'].keys()) | {'gen_Arc_derivative_%d_%s' % (k, other) for k in (4, 8)}
+        if 'gen_Arc_derivative_4' in info['untranslated']: skipv.add('gen_Arc_derivative_4_' + ('fixed' if dfx else 'pinned'))
+        if 'gen_Arc_derivative_8' in info['untranslated']: skipv.add('gen_Arc_derivative_8_' + ('fixed' if dfx else 'pinned'))
+        va = common.run_agree('ArcVariant.v', tmp, skip=skipv)
+        rep.cov['obligations'] += len(va)
+        for name, (aok, msg) in sorted(va.items()):
+            if aok:
+                rep.cov['discharged'] += 1
+            else:
+                info['agree_failed'].append(name)
+                info.setdefault('agree_msgs', {})[name] = msg
+        rep.cov['agreement_lemmas']['checked'] += len(va)
+        rep.cov['agreement_lemmas']['failed'] = info['agree_failed']
         n = 300 if tier == 'quick' else 5000
         # Arc._parameterize and derivative with symbolic n are known to be outside the
         # translator subset; only a lost tie for point/derivative_k promotes the budget
@@ -442,7 +497,7 @@ def run(rep, tier, seed, replay=None):
             cases.append(case_term(arc_in, ts, o))
             meta.append((arc_in, ts, o))
             nontrivial.add((arc_in[0], arc_in[1], arc_in[2], arc_in[5]))
-            for key, what, detail in holds_impl(arc_in, a, o, ts):
+            for key, what, detail in holds_impl(arc_in, a, o, ts, fx):
                 if key not in found:
                     found[key] = [0, what, {'kind': 'property', 'arc': arc_json(arc_in), 'detail': detail,
                                             'how': './check C04 --replay <this file>'}]
@@ -450,7 +505,8 @@ def run(rep, tier, seed, replay=None):
         for key, (cnt, what, rp) in sorted(found.items()):
             rp['cases_in_this_run'] = cnt
             rep.violation('C04: %s  [%d arc(s) of this run]' % (what, cnt), rp, key=key)
-        fails, errors = common.run_cases(tmp, 'From SVP Require Import Base.BigF.\n', 'casety', OKDEF, cases,
+        okdef = OKDEF.replace('__FX__', coq_bool(fx)).replace('__DFX__', coq_bool(dfx))
+        fails, errors = common.run_cases(tmp, 'From SVP Require Import Base.BigF.\n', 'casety', okdef, cases,
                                          shard=max(8, (len(cases) + 15) // 16) if len(cases) < 800 else 60,
                                          timeout=1500)
         for er in errors:
@@ -492,11 +548,14 @@ def run(rep, tier, seed, replay=None):
             rep.violation('agreement lemma(s) %s no longer check: generated code differs from the model'
                           % info['agree_failed'],
                           {'kind': 'agreement', 'lemmas': info['agree_failed'],
-                           'file': 'coq/GenAgree/Arc.v', 'messages': info.get('agree_msgs', {})},
+                           'file': 'coq/GenAgree/Arc.v, coq/GenAgree/ArcVariant.v',
+                           'messages': info.get('agree_msgs', {})},
                           found_input=False, key='agree')
     rep.assumptions += ['libm cos/sin/acos/sqrt are oracles (binary64, <= 2 ulp, sampled)',
                         'np.isclose / np.clip modelled by their documented formulas',
                         'bigfloat (120-bit, Interval library) evaluation of the model is accurate to ~1e-30 relative '
                         '(unverified enclosure)',
                         'acos forward error of the implementation bounded by min(2^-46/sqrt(1-x^2), 2^-23) rad',
-                        'autoscale_radius=True (default) only']
+                        'autoscale_radius=True (default) only',
+                        'the variant flags (FX, DFX) of the model are chosen by behavioural probes of the implementation; '
+                        'a wrong choice shows up as correspondence / variant-agreement failures']
